@@ -163,3 +163,31 @@ func init() {
 		},
 	})
 }
+
+func init() {
+	register(&checkDef{
+		ID: "C17", Pkg: "runh", Level: "other", NativeCheck: true, UseStubs: true, OnlyPrefix: "C17/",
+		Explanation: "Bounded exhaustive symbolic execution of the real file.Find over directory chains in the in-memory file system: per level an entry sorting before 'spokfile', a regular file or a directory named spokfile, an entry sorting after it are symbolic; start level and stop (each level, the root, an unrelated directory) are symbolic choices. " +
+			"Non-termination is decided, not sampled: a path that exceeds its instruction budget is an unwinding failure, reported as a violation only when the native replay of the same configuration hangs under its watchdog. All variables are booleans/choices, so inside the bound this is complete enumeration through the real code.",
+		Bounds: func(tier string) string {
+			if tier == "thorough" {
+				return "chains of depth 1..4, all 12^depth level contents x every start level x stop in {each level, root, unrelated directory}"
+			}
+			return "chains of depth 1..3, all 12^depth level contents x every start level x stop in {each level, root, unrelated directory}"
+		},
+		Outside:      []string{"deeper chains; symbolic links; permission errors; directories above the chain contain no spokfile"},
+		Assumptions:  []string{"os.ReadDir is the in-memory model (entries sorted by name, as documented); filepath.Abs/Join/Dir run from their real source", "engine trusted base: go/ssa, the forked interpreter"},
+		EndSignature: map[string]string{"crash": "C17/panic", "budget": "C17/does-not-terminate", "deadlock": "C17/deadlock"},
+		Jobs: func(tier string, seed int64) []jobSpec {
+			max := 3
+			if tier == "thorough" {
+				max = 4
+			}
+			var out []jobSpec
+			for d := 1; d <= max; d++ {
+				out = append(out, jobSpec{Name: fmt.Sprintf("Find[depth=%d]", d), Func: "Find", Params: map[string]string{"depth": strconv.Itoa(d)}, Opts: interp.Options{Budget: 400_000}})
+			}
+			return out
+		},
+	})
+}
